@@ -470,3 +470,72 @@ for K in (BitVector, Unsigned, Signed):
         c.models = [(VhdlScope.__dict__["format_value"], lambda it, self, obj, *a, **kw: SFmt([TextOf(obj)]))]
         c.interp_flags = {"arith_hints": True}
         con.cases.append(c)
+
+
+# run-time index below enclosing constant offsets (`v[7:4][i]`): the text `PARENT(<i>)` has no place for the constant part S of the
+# position i + S -- it is correct only for S == 0; any other accumulated offset must be rejected, not dropped
+from cohdl import Signal as _RtSignal  # noqa: E402
+
+
+def rt_offset_spec(k):
+    def spec(sx, scope, obj, root_name, ref_spec, is_target_, constrain_=False):
+        base = list(ref_spec.fields["base_offset"])
+        S = sum(base) if base else 0
+        if sx.branch(sym.Not(sym.eq(S, 0))):
+            sx.reject(AssertionError)
+
+        def holds(res):
+            if not (isinstance(res, tuple) and len(res) == 2 and res[1] is Bit):
+                return False
+            text = res[0]
+            flat = "".join(map(str, text.parts)) if isinstance(text, SFmt) else str(text)
+            return flat == "PARENT(<run-time index>)"
+
+        return C.Pred(holds, "PARENT(<index>): the position is the index itself")
+
+    return spec
+
+
+for k in (0, 1, 2):
+    def mk_rt(env, k=k):
+        return SObj(_Offset, offset=SObj(_RtSignal, f_tag="run-time index", _ref_spec=[]), base_offset=[env[f"b{i}"] for i in range(k)], obj=None)
+
+    T = Built([], lambda env: False, lambda a: "False", lambda a: None)
+    c = Case(f"offset:run-time-index,{k}-constant-offsets", [SCOPE, ref_shape(BitVector, "offset", k), NAME, Built([], mk_rt, lambda a: "<ref>", lambda a: None), T], rt_offset_spec(k))
+    c.native = False
+    c.models = [(VhdlScope.__dict__["format_value"], lambda it, self, obj, *a, **kw: "<run-time index>")]
+    c.custom_replay = "contracts.c02_ops.replay_runtime_index_offset"
+    con.cases.append(c)
+
+_RT_INDEX_DESIGN = '''
+from cohdl import Entity, Port, Bit, BitVector, Unsigned, std
+class RtIndex(Entity):
+    v = Port.input(BitVector[8])
+    i = Port.input(Unsigned[2])
+    o = Port.output(Bit)
+    def architecture(self):
+        @std.concurrent
+        def logic():
+            self.o <<= self.v[7:4][self.i]
+try:
+    t = std.VhdlCompiler.to_string(RtIndex)
+    print("ACCEPTED", [l.strip() for l in t.splitlines() if "to_integer" in l])
+except AssertionError:
+    print("REJECTED")
+'''
+
+
+def replay_runtime_index_offset(payload):
+    import re
+    from contracts.c06_extra import _run_design
+
+    rc, out = _run_design(_RT_INDEX_DESIGN)
+    # accepted is fine only if the emitted index adds the offset of the slice
+    bad = "ACCEPTED" in out and not re.search(r"\+\s*4|4\s*\+", out)
+    return {"reproduced": bad, "detail": "`self.v[7:4][self.i]` (run-time index into a slice that starts at bit 4): " + out[-160:]}
+
+
+# C09 ("the same type, width and value as the logic emitted for the same operation applied to run-time signals"): the emitted side of
+# that comparison are these writers -- their contracts state the value of the emitted text as a function of the operand values
+for _q in ("BinOp.write", "Compare.write", "UnaryOp.write"):
+    contract("cohdl._compiler.backend.vhdl._vhdl_repr:" + _q, ("C09",))
